@@ -35,6 +35,7 @@ type Node struct {
 	Pts    []string `json:"pts"`
 	Kids   []Kid    `json:"kids"`
 	ReqMsg string   `json:"reqmsg"` // custom message passed to Required(...)
+	ReqPath string  `json:"reqpath"` // IssuePath passed to Required(...) / NotNil(...)
 }
 
 type Ent struct {
